@@ -1,0 +1,32 @@
+//go:build verif
+
+// Contracts of package state for the gocv verifier (property C18).
+// Comment-only: no Go code is compiled from this file.
+//
+// regs_hist(h) / state_hist(h): the register map (state) built by the real
+// constructor and the real Store (Apply) calls of the h-th register-write
+// history of the verifier's corpus; the written expressions have concrete
+// shape and arbitrary leaf values. reg_written(k): key k was written;
+// reg_last(k): the value last written to k, adapted to its write width.
+// effect_case(e): the e-th effect of the corpus (a register write; memory
+// writes whose address is a constant, folds to a constant, or does not).
+
+package state
+
+//@ func (*RegMap).Load
+//@   enum h in REGHIST, kk in REGKEYS, w in REGW
+//@   input:m regs_hist(h)
+//@   input:k regkey(kk)
+//@   ensures[present-iff-written] result1 == reg_written(kk)
+//@   ensures[absent-is-nil] !result1 ==> isnil(result0)
+//@   ensures[width] result1 ==> width(result0) == w
+//@   ensures[value] result1 ==> val(result0) == ext(reg_last(kk), w)
+
+//@ func (*State).Apply
+//@   enum h in REGHIST, e in EFFECTS
+//@   input:s state_hist(h)
+//@   input:ef effect_case(e)
+//@   requires effect_nowrap()
+//@   ensures[accepted-iff-constant-address] result == effect_addr_const()
+//@   ensures[refused-changes-nothing] !result ==> heap_unchanged()
+//@   ensures[accepted-is-applied] result ==> effect_applied()
